@@ -128,9 +128,11 @@ def generate(seed: int, tier: str = "quick") -> Dict[str, Any]:
         elif k == "remove_species":
             op["sp"] = rng.choice(species + ["ZZ"]) if rng.random() < p_bogus else rng.choice(species)
             op["prune"] = rng.random() < 0.6
+            op["dflt"] = rng.random() < 0.4
         elif k == "merge":
             op["src"] = rng.randrange(n_nets)
             op["prefix"] = rng.random() < 0.5
+            op["dflt"] = rng.random() < 0.4
         elif k == "copy":
             op["src"] = rng.randrange(n_nets)
         elif k == "set_mol":
@@ -140,6 +142,7 @@ def generate(seed: int, tier: str = "quick") -> Dict[str, Any]:
             op["mapping"] = m
             op["strict"] = rng.random() < 0.5
             op["clear"] = rng.random() < 0.3
+            op["dflt"] = rng.random() < 0.4
         elif k == "assign_mol":
             op["sp"] = rng.choice(species + ["ZZ"]) if rng.random() < p_bogus else rng.choice(species)
             op["mol"] = "m%d" % rng.randrange(5)
@@ -292,6 +295,11 @@ def check_net(H: CRNHyperGraph, M: Model, site: str, cond: str, other: bool) -> 
         _fail(site, wrap("mol_labels_mismatch"), cond, {"want": M.mol_snapshot, "got": dict(H.species_to_mol)})
     # incidence
     so, eo, mapping = H.incidence_matrix(sparse=True)
+    so0, eo0, mapping0 = H.incidence_matrix()                 # documented default: sparse mapping
+    if not isinstance(mapping0, dict) or (so0, eo0, mapping0) != (so, eo, mapping):
+        _fail(site, wrap("incidence_mismatch"), cond, {"default_call_differs_from_sparse": True})
+    if H.stoichiometric_matrix(sparse=True) != (so, eo, mapping):
+        _fail(site, wrap("incidence_mismatch"), cond, {"stoichiometric_matrix_alias_differs": True})
     so2, eo2, mat = H.incidence_matrix(sparse=False)
     if so != sorted(sp) or so2 != so or eo != sorted(ids) or eo2 != eo:
         _fail(site, wrap("incidence_mismatch"), cond, {"rows": so, "cols": eo})
@@ -515,7 +523,10 @@ def _run(case: Dict[str, Any], sim: Sim, world: World) -> None:
             s = op["sp"]
             present = s in M.species()
             try:
-                H.remove_species(s, prune_orphans=op["prune"])
+                if op.get("dflt") and op["prune"]:
+                    H.remove_species(s)                       # documented default: prune_orphans=True
+                else:
+                    H.remove_species(s, prune_orphans=op["prune"])
                 if not present:
                     outcome = "no_error"
                 else:
@@ -562,7 +573,10 @@ def _run(case: Dict[str, Any], sim: Sim, world: World) -> None:
             if collisions and not op["prefix"]:
                 sim.probe("merge_id_collision")
             try:
-                H.merge(nets[j], prefix_edges=op["prefix"])
+                if op.get("dflt") and op["prefix"]:
+                    H.merge(nets[j])                          # documented default: prefix_edges=True
+                else:
+                    H.merge(nets[j], prefix_edges=op["prefix"])
             except (KeyError, ValueError) as ex:
                 _fail("merge", "unexpected_exception", "generated id already in use" if "already exists" in str(ex) else "",
                       {"exc": repr(ex), "prefix": op["prefix"], "dst_ids": sorted(before), "src_ids": [x[0] for x in src_snapshot]})
@@ -595,7 +609,12 @@ def _run(case: Dict[str, Any], sim: Sim, world: World) -> None:
             sp = M.species()
             unknown = set(mp) - sp
             try:
-                H.set_mol_map(mp, strict=op["strict"], clear_existing=op["clear"])
+                if op.get("dflt") and op["strict"] and not op["clear"]:
+                    H.set_mol_map(mp)                         # documented defaults: strict=True, clear_existing=False
+                elif op.get("dflt") and op["strict"]:
+                    H.set_mol_map(mp, clear_existing=op["clear"])
+                else:
+                    H.set_mol_map(mp, strict=op["strict"], clear_existing=op["clear"])
                 if op["strict"] and unknown:
                     outcome = "no_error"
                 else:
